@@ -95,6 +95,18 @@ func c09Hash(k int) *chainhash.Hash {
 }
 
 func c09OutPoint(name string) *wire.OutPoint {
+	switch name {
+	case "oN": // the null outpoint (what a coinbase input carries): an item like any other
+		return wire.NewOutPoint(&chainhash.Hash{}, 0xffffffff)
+	case "oZ": // all-zero hash, index 0
+		return wire.NewOutPoint(&chainhash.Hash{}, 0)
+	case "oH": // all-ones hash, index 0xffffffff
+		h := chainhash.Hash{}
+		for i := range h {
+			h[i] = 0xff
+		}
+		return wire.NewOutPoint(&h, 0xffffffff)
+	}
 	idx := map[string]uint32{"o0": 0, "o1": 1, "oM": 0x01020304, "oF": 0xffffffff}[name]
 	return wire.NewOutPoint(c09Hash(3), idx)
 }
@@ -227,7 +239,7 @@ func c09EvalHistory(w *mc.W, h c09History) {
 				fail("matches-answer-differs-from-bip37", fmt.Sprintf("final observation of item %s: got %v want %v", name, got, want))
 			}
 		}
-		for _, name := range []string{"o0", "o1", "oM", "oF"} {
+		for _, name := range []string{"o0", "o1", "oM", "oF", "oN", "oZ", "oH"} {
 			o := c09OutPoint(name)
 			want := loaded && model.Contains(ref.OutPointBytes(o.Hash, o.Index))
 			if got := f.MatchesOutPoint(o); got != want {
@@ -394,7 +406,7 @@ func runC09(c *mc.Ctx) {
 		for _, it := range c09ItemNames {
 			single = append(single, c09History{Cfg: cfg, Ops: []string{"add:" + it}})
 		}
-		for _, o := range []string{"o0", "o1", "oM", "oF"} {
+		for _, o := range []string{"o0", "o1", "oM", "oF", "oN", "oZ", "oH"} {
 			single = append(single, c09History{Cfg: cfg, Ops: []string{"addop:" + o}})
 		}
 		single = append(single, c09History{Cfg: cfg, Ops: []string{"addhash"}})
